@@ -15,7 +15,8 @@ TYNAMES = [TY_XML_NAME[t] for t in TYS[1:]] + ["Unsigned16", "utf8string", "UTF8
 
 
 def gen_def(r):
-    return dict(code=r.choice([1, 2, 3, 1000, 0, 0xffffffff, 264]), vendor=r.choice([None, None, 1, 10415, 0, 0xffffffff]),
+    # codes and vendor ids overlap (1, 2, 3, 5, 10415 occur as both): keys such as (1, vendor 2) / (2, vendor 1) must stay apart
+    return dict(code=r.choice([1, 2, 3, 5, 1000, 0, 0xffffffff, 264, 10415]), vendor=r.choice([None, None, 1, 2, 3, 10415, 0, 0xffffffff]),
                 name=r.choice(NAMES), tyname=r.choice(TYNAMES[:16] if r.chance(4, 5) else TYNAMES).encode(), must=r.choice(MUSTS),
                 may=r.choice([None, b"M", b"P"]))
 
@@ -83,8 +84,8 @@ def check_C14(chk, tier, seed):
             lines.append(("D", dict_line(did, ops), None))
             # queries: every key of the pool (defined or not), every name
             qs, want = [], []
-            keys = [(c, v) for c in (1, 2, 3, 1000, 0, 0xffffffff, 264, 77) for v in (None, 1, 10415, 0, 0xffffffff, 5)]
-            for (c, v) in r.shuffle(keys)[:16]:
+            keys = [(c, v) for c in (1, 2, 3, 5, 1000, 0, 0xffffffff, 264, 10415, 77) for v in (None, 1, 2, 3, 10415, 0, 0xffffffff, 5)]
+            for (c, v) in r.shuffle(keys)[:24]:
                 qs.append(f"AVP {hx(c)} {opt(v)}")
                 d = mm.avps.get((c, v))
                 want.append(("avp", fmt_def(d) if d else "none"))
@@ -105,8 +106,8 @@ def check_C14(chk, tier, seed):
 
     def queries(r, mm, did, nops):
         qs, want = [], []
-        keys = [(c, v) for c in (1, 2, 3, 1000, 0, 0xffffffff, 264, 77) for v in (None, 1, 10415, 0, 0xffffffff, 5)]
-        for (c, v) in r.shuffle(keys)[:16]:
+        keys = [(c, v) for c in (1, 2, 3, 5, 1000, 0, 0xffffffff, 264, 10415, 77) for v in (None, 1, 2, 3, 10415, 0, 0xffffffff, 5)]
+        for (c, v) in r.shuffle(keys)[:24]:
             qs.append(f"AVP {hx(c)} {opt(v)}")
             d = mm.avps.get((c, v))
             want.append(("avp", fmt_def(d) if d else "none"))
